@@ -1143,6 +1143,21 @@ def main():
     co.append('(* File.h: documented format table: code, class id (0 = none) *)')
     co.append('Definition format_table : list (Z * Z) := [\n  %s].\n' % ';\n  '.join(
         '(%d, %d)' % (code, world.classes[h].idx if h in world.classes else 0) for nm, code, h in fmt))
+    cre = []
+    for n in names:
+        cls = world.classes[n]
+        concrete = 'read' in cls.bodies and (cls.ctor is None or not [t for t in cls.ctor[0]])
+        isobj = any(c.name == 'ObjectHeaderBase' for c in Ctx(world, cls).mro(cls))
+        unmodelled = any(m.kind[0] == 'other' for c in Ctx(world, cls).mro(cls) for m in c.members if m.name != 'filePosition')
+        if concrete and isobj and not unmodelled:
+            cre.append(cls.idx)
+    ohb = world.classes.get('ObjectHeaderBase')
+    for fname in ('signature', 'headerSize', 'headerVersion', 'objectSize', 'objectType'):
+        m = [x for x in (ohb.members if ohb else []) if x.name == fname]
+        co.append('Definition fid_%s : Z := %d.' % (fname, m[0].fid if m else 0))
+    co.append('Definition class_names : list (Z * string) := [%s].\n' % '; '.join('(%d, "%s")' % (world.classes[n].idx, n) for n in names))
+    co.append('(* classes derived from ObjectHeaderBase with a default constructor *)')
+    co.append('Definition object_classes : list Z := [%s].\n' % '; '.join(str(i) for i in cre))
     write_if_changed(os.path.join(coqdir, 'Consts.v'), '\n'.join(co))
     meta['scan'] = scan
     meta['object_types'] = otl
@@ -1230,7 +1245,7 @@ def gen_reflect(world, names, hdir, meta):
         o.append('     [](void * p, Vector::BLF::AbstractFile & f) { static_cast<Vector::BLF::%s *>(p)->write(f); },' % n)
         if isobj:
             o.append('     [](void * p) -> Vector::BLF::ObjectHeaderBase * { return static_cast<Vector::BLF::%s *>(p); },' % n)
-            o.append('     [](Vector::BLF::ObjectHeaderBase * b) -> void * { return dynamic_cast<Vector::BLF::%s *>(b); },' % n)
+            o.append('     [](Vector::BLF::ObjectHeaderBase * b) -> void * { return typeid(*b) == typeid(Vector::BLF::%s) ? dynamic_cast<Vector::BLF::%s *>(b) : nullptr; },' % (n, n))
         else:
             o.append('     nullptr, nullptr,')
         o.append('     sizeof(Vector::BLF::%s),' % n)
